@@ -398,6 +398,8 @@ def check_case(case, ex):
         if st['out'] != 'ok':
             out.append(C.V('C06.raised_on_representable', fp, value=op['v'], exc=st.get('exc'), msg=st.get('msg')))
             continue
+        if st.get('earlier_changed'):
+            out.append(C.V('C06.earlier_result_changed', dict(fp, why='aliased_result'), n=st['earlier_changed'], code=op['code']))
         raw = bytes.fromhex(st['bytes'])
         try:
             v, used = decode(code, raw)
